@@ -32,6 +32,8 @@ type TxObs struct {
 	// PreFees / PostFees are the block's fee accumulator before/after.
 	PreFees, PostFees *big.Int
 	Gen               *GenTx // set by the recorder when known
+	// Events are the events the transaction emitted (runtime support: slashing by roothash evidence).
+	Events []types.Event
 }
 
 // TxMonitor is notified of every delivered transaction (with state dumps).
@@ -104,6 +106,7 @@ func (r *Recorder) OnTap(h *History, stage, app string, ctx *cmt.Context, extra 
 		r.cur = nil
 		o.Post = Dump(bg, ctx.State())
 		o.PostFees = blockFees(ctx)
+		o.Events = ctx.GetEvents() // runtime support
 		o.Diff = Diff(o.Pre, o.Post)
 		if e, ok := extra.(error); ok && e != nil {
 			o.Err = e
